@@ -80,8 +80,13 @@ type Case struct {
 	// (ValidatingAccountsForEpochByIndex fails) | "for-epoch"
 	// (ValidatingAccountsForEpoch fails) | "both".
 	AccountsFault string `json:"accounts_fault,omitempty"`
-	SourceBack    uint64 `json:"source_back"` // source epoch = target epoch - min(SourceBack, target)
-	RootSeed      uint64 `json:"root_seed"`
+	// SignFault, in force during the Attest of the judged slot: "" | "batch-error" (a
+	// signing request for two or more accounts fails as a whole, single-account requests
+	// succeed) | "single-error" (only single-account requests fail) | "all-error".
+	// Zero signatures are scripted per validator (Skip "zerosig").
+	SignFault  string `json:"sign_fault,omitempty"`
+	SourceBack uint64 `json:"source_back"` // source epoch = target epoch - min(SourceBack, target)
+	RootSeed   uint64 `json:"root_seed"`
 }
 
 // ExtraSlot is another slot of the epoch with its own committees and validators
@@ -212,15 +217,58 @@ type signReq struct {
 	known      []bool
 	committees []uint64
 	slot       uint64
+	root       phase0.Root
+	srcEpoch   uint64
+	srcRoot    phase0.Root
+	tgtEpoch   uint64
+	tgtRoot    phase0.Root
+	method     string // SignBeaconAttestations | SignBeaconAttestation
+	failed     bool
 }
 
+// signer implements both attestation-signing interfaces of services/signer
+// (BeaconAttestationsSigner and BeaconAttestationSigner); every request of either
+// kind is logged, also when it is scripted to fail.
 type signer struct {
-	mu   sync.Mutex
-	zero map[uint64]bool
-	reqs []signReq
+	mu                    sync.Mutex
+	zero                  map[uint64]bool
+	reqs                  []signReq
+	failBatch, failSingle bool
+}
+
+// SignBeaconAttestation is the single-account method.
+func (s *signer) SignBeaconAttestation(ctx context.Context,
+	account e2wtypes.Account,
+	slot phase0.Slot,
+	committeeIndex phase0.CommitteeIndex,
+	blockRoot phase0.Root,
+	sourceEpoch phase0.Epoch,
+	sourceRoot phase0.Root,
+	targetEpoch phase0.Epoch,
+	targetRoot phase0.Root,
+) (phase0.BLSSignature, error) {
+	sigs, err := s.sign("SignBeaconAttestation", []e2wtypes.Account{account}, slot, []phase0.CommitteeIndex{committeeIndex},
+		blockRoot, sourceEpoch, sourceRoot, targetEpoch, targetRoot)
+	if err != nil {
+		return phase0.BLSSignature{}, err
+	}
+	return sigs[0], nil
 }
 
 func (s *signer) SignBeaconAttestations(_ context.Context,
+	accounts []e2wtypes.Account,
+	slot phase0.Slot,
+	committeeIndices []phase0.CommitteeIndex,
+	blockRoot phase0.Root,
+	sourceEpoch phase0.Epoch,
+	sourceRoot phase0.Root,
+	targetEpoch phase0.Epoch,
+	targetRoot phase0.Root,
+) ([]phase0.BLSSignature, error) {
+	return s.sign("SignBeaconAttestations", accounts, slot, committeeIndices, blockRoot, sourceEpoch, sourceRoot, targetEpoch, targetRoot)
+}
+
+func (s *signer) sign(method string,
 	accounts []e2wtypes.Account,
 	slot phase0.Slot,
 	committeeIndices []phase0.CommitteeIndex,
@@ -236,7 +284,8 @@ func (s *signer) SignBeaconAttestations(_ context.Context,
 		return nil, fmt.Errorf("signer double: %d accounts but %d committee indices", len(accounts), len(committeeIndices))
 	}
 	seq := len(s.reqs)
-	req := signReq{slot: uint64(slot)}
+	req := signReq{slot: uint64(slot), root: blockRoot, srcEpoch: uint64(sourceEpoch), srcRoot: sourceRoot,
+		tgtEpoch: uint64(targetEpoch), tgtRoot: targetRoot, method: method}
 	sigs := make([]phase0.BLSSignature, len(accounts))
 	for i, a := range accounts {
 		v, ok := accountValidator(a)
@@ -247,6 +296,11 @@ func (s *signer) SignBeaconAttestations(_ context.Context,
 			continue
 		}
 		sigs[i] = makeSig(v, seq, digest(uint64(slot), uint64(committeeIndices[i]), blockRoot, uint64(sourceEpoch), sourceRoot, uint64(targetEpoch), targetRoot))
+	}
+	if (len(accounts) >= 2 && s.failBatch) || (len(accounts) == 1 && s.failSingle) {
+		req.failed = true
+		s.reqs = append(s.reqs, req)
+		return nil, fmt.Errorf("scripted signing failure")
 	}
 	s.reqs = append(s.reqs, req)
 	return sigs, nil
@@ -485,6 +539,7 @@ func genCase(t *rapid.T) Case {
 		usedV[v] = true
 		c.OtherAccounts = append(c.OtherAccounts, v)
 	}
+	c.SignFault = rapid.SampledFrom([]string{"", "", "", "", "", "", "batch-error", "batch-error", "single-error", "all-error"}).Draw(t, "signFault")
 	c.AccountsFault = rapid.SampledFrom([]string{"", "", "", "", "", "", "by-index", "by-index", "for-epoch", "both"}).Draw(t, "accountsFault")
 	return c
 }
@@ -628,6 +683,14 @@ func judgeCall(what string, slot uint64, tuples []tuple, expect map[uint64]bool,
 				res = append(res, callJudgement{"signature-requested-for-foreign-validator", fmt.Sprintf("%s: the signer was asked to sign (committee %d) with the account of validator %d, which has no duty in slot %d", what, q.committees[k], v, slot)})
 			case !askable[v]:
 				res = append(res, callJudgement{"signature-requested-for-skipped-validator", fmt.Sprintf("%s: the signer was asked to sign with the account of validator %d, which already attested this epoch or has no account", what, v)})
+			case q.committees[k] != byV[v].committee || q.slot != slot:
+				asg := "wrong-assignment"
+				if afterAttestedSkip[v] {
+					asg = "wrong-assignment-after-attested-skip"
+				}
+				res = append(res, callJudgement{asg, fmt.Sprintf("%s: %s asked the account of validator %d to sign slot %d committee %d; the duty assigns it slot %d committee %d", what, q.method, v, q.slot, q.committees[k], slot, byV[v].committee)})
+			case q.root != data.BeaconBlockRoot || q.srcEpoch != uint64(data.Source.Epoch) || q.srcRoot != data.Source.Root || q.tgtEpoch != uint64(data.Target.Epoch) || q.tgtRoot != data.Target.Root:
+				res = append(res, callJudgement{"data-mismatch", fmt.Sprintf("%s: %s asked the account of validator %d to sign a block root/source/target other than the attestation data obtained for the slot", what, q.method, v)})
 			}
 		}
 	}
@@ -679,6 +742,10 @@ func judgeCall(what string, slot uint64, tuples []tuple, expect map[uint64]bool,
 		if uint64(a.Data.Index) != tp.committee || blen != int64(tp.size) || len(bits) != 1 || bits[0] != tp.pos {
 			res = append(res, callJudgement{asg, fmt.Sprintf("%s: carries committee %d, committee size %d, position bits %v; the duty assigns validator %d committee %d, size %d, position %d",
 				where, a.Data.Index, blen, bits, v, tp.committee, tp.size, tp.pos)})
+			continue
+		}
+		if seq < len(reqs) && reqs[seq].failed {
+			res = append(res, callJudgement{"attestation-without-signature", where + ": carries a signature from a signing request that failed"})
 			continue
 		}
 		want := digest(slot, tp.committee, data.BeaconBlockRoot, uint64(data.Source.Epoch), data.Source.Root, uint64(data.Target.Epoch), data.Target.Root)
@@ -862,9 +929,12 @@ func runAndJudge(c *Case) (harness string, js []callJudgement, st stats) {
 		if slot == c.Slot {
 			acc.failByIndex = c.AccountsFault == "by-index" || c.AccountsFault == "both"
 			acc.failForEpoch = c.AccountsFault == "for-epoch" || c.AccountsFault == "both"
+			sgn.failBatch = c.SignFault == "batch-error" || c.SignFault == "all-error"
+			sgn.failSingle = c.SignFault == "single-error" || c.SignFault == "all-error"
 		}
 		_, _ = svc.Attest(ctx, duties[slot]) // the error (e.g. nobody left to attest) is not part of this property
 		acc.failByIndex, acc.failForEpoch = false, false
+		sgn.failBatch, sgn.failSingle = false, false
 		subRange[slot] = [2]int{from, len(sub.calls)}
 		reqRange[slot] = [2]int{reqFrom, len(sgn.reqs)}
 	}
@@ -951,7 +1021,8 @@ func runAndJudge(c *Case) (harness string, js []callJudgement, st stats) {
 					askable[v.V] = true
 				}
 			}
-			optional := c.AccountsFault == "by-index" || c.AccountsFault == "both"
+			// a failed lookup or a failed signing request means nobody HAS to attest
+			optional := c.AccountsFault == "by-index" || c.AccountsFault == "both" || c.SignFault != ""
 			js = append(js, judgeCall("Attest", c.Slot, mainTuples, expect, afterAttestedSkip, mainData, submitted, sgn.reqs, during, askable, optional)...)
 			continue
 		}
@@ -992,6 +1063,9 @@ func check(t ev.TB, c *Case) {
 	}
 	if st.multi {
 		labels = append(labels, "several-committees")
+	}
+	if c.SignFault != "" {
+		labels = append(labels, "sign-fault-"+c.SignFault)
 	}
 	if c.AccountsFault != "" {
 		labels = append(labels, "accounts-fault-"+c.AccountsFault)
